@@ -1,6 +1,8 @@
 """C01e: differential test of the sub-grammars of Props/C01e.lean against the real converter.
 
-modes (python corr/nest.py <mode> <n documents> <seed>; 4 spellings per document):
+`run(driver, rng, n)` is the entry point of the correspondence framework (mode of every document drawn from `rng`).
+
+modes (python corr/nest.py <mode> <n documents> <seed>; 4 spellings per document; mode `all` = drawn per document):
   A  `ListMixDoc`: the list shapes of C01d with mixRun inline content in item paragraphs and in the blocks of loose items
   Q  `QuoteListDoc`: quotes that hold lists of flat items; loose lists whose items hold quotes of flat blocks
   B  one or two steps of mutual nesting of quotes and loose lists (inside `NestDoc`)
@@ -259,17 +261,32 @@ def kinds_of(d, ctx, out):
             for it in b[2]: kinds_of(it, c, out)
 
 
-def run(driver, rng, n, mode, spellings=4):
+MODES = 'AQBC'
+SPELLINGS = 4
+MAX_DIS = 50          # disagreement entries kept per call (the shortest sources); dist['disagreements_total'] has the count
+
+
+def clip(x, k=600):
+    x = x if isinstance(x, str) else repr(x)
+    return x if len(x) <= k else x[:k] + '…(%d chars)' % len(x)
+
+
+def check_docs(driver, rng, docs, spellings=SPELLINGS, tags=None, full=False):
+    """the differential test proper: every document of `docs` that the driver's `doc.wf` accepts is printed under
+    `spellings` spellings (the first one empty = canonical, the others drawn from `rng`) by `doc.print`;
+    `markdown.Markdown().convert` of each printed source must equal `doc.spec` of the document.
+    `tags[i]` (optional) labels document i in the statistics and in the disagreement entries.
+    Returns the dict of the correspondence framework (`full`: + the keys of the command-line report)."""
     import markdown
-    g = G(rng, mode)
-    docs = [g.doc() for _ in range(n)]
+    n = len(docs)
+    tags = list(tags) if tags is not None else [''] * n
     encs = [enc_doc(d) for d in docs]
-    wf = driver.ask_many([('doc.wf', e) for e in encs])
-    keep = [(d, e) for d, e, w in zip(docs, encs, wf) if w == '1']
+    wf = driver.ask_many([('doc.wf', e) for e in encs]) if docs else []
+    keep = [(d, e, t) for d, e, t, w in zip(docs, encs, tags, wf) if w == '1']
     rej = [d for d, w in zip(docs, wf) if w != '1']
-    specs = driver.ask_many([('doc.spec', e) for _, e in keep])
+    specs = driver.ask_many([('doc.spec', e) for _, e, _ in keep]) if keep else []
     reqs, meta = [], []
-    for i, (d, e) in enumerate(keep):
+    for i, (d, e, t) in enumerate(keep):
         for j in range(spellings):
             sp = [] if j == 0 else [rng.randint(0, 11) for _ in range(rng.choice([10, 60, 200]))]
             reqs.append(('doc.print', e, ','.join(map(str, sp)))); meta.append(i)
@@ -279,19 +296,46 @@ def run(driver, rng, n, mode, spellings=4):
     md = markdown.Markdown()
     dis, seen = [], set()
     dist = collections.Counter()
-    for d, _ in keep:
+    dist['documents'] = len(keep)
+    dist['rejected_by_wf'] = len(rej)
+    for d, _, t in keep:
+        if t: dist['mode:' + t] += 1
         dist['depth:%d' % depth_of(d)] += 1
         kinds_of(d, 'top', dist)
     for (op, e, sp), i, s in zip(reqs, meta, srcs):
         src = dec_str(s)
         seen.add(src)
-        out = md.reset().convert(src)
+        try:
+            out = md.reset().convert(src)
+        except Exception as ex:  # noqa: BLE001   an exception of the converter is a disagreement, not a crash of the check
+            out = 'EXCEPTION %r' % (ex,)
+            md = markdown.Markdown()
         want = dec_str(specs[i])
         if out != want:
-            dis.append({'src': src, 'want': want, 'got': out, 'doc': keep[i][0], 'sp': sp})
-    dis.sort(key=lambda x: len(x['src']))
-    return {'generated': n, 'wf': len(keep), 'cases': len(reqs), 'distinct': len(seen), 'n_dis': len(dis),
-            'dis': dis[:20], 'dist': dict(sorted(dist.items())), 'rejected': rej[:5]}
+            dis.append({'src': src, 'want': want, 'got': out, 'doc': keep[i][0], 'sp': sp, 'mode': keep[i][2]})
+    dis.sort(key=lambda x: (len(x['src']), x['src']))
+    dist['disagreements_total'] = len(dis)
+    samples = [{'op': 'doc.print', 'input': clip(keep[meta[k]][0], 400), 'model': clip(dec_str(srcs[k]), 400)}
+               for k in rng.sample(range(len(reqs)), min(3, len(reqs)))]
+    res = {'cases': len(reqs), 'distinct': len(seen),
+           'disagreements': [{'op': 'convert(print d sp) = spec d', 'mode': x['mode'], 'input': clip(x['src'], 1500),
+                              'spelling': clip(x['sp'], 120), 'model': clip(x['want']), 'impl': clip(x['got']),
+                              'doc': clip(x['doc'], 800)} for x in dis[:MAX_DIS]],
+           'samples': samples, 'dist': dict(sorted(dist.items()))}
+    if full:
+        res.update({'generated': n, 'wf': len(keep), 'n_dis': len(dis), 'dis': dis[:20], 'rejected': rej[:5]})
+    return res
+
+
+def run(driver, rng, n, mode=None, spellings=SPELLINGS, full=False):
+    """correspondence entry point (`framework.pmap('corr.nest', 'run', seed, n, shards)`): `n` documents, each printed
+    under `spellings` spellings; `distinct` = distinct printed sources (every document has >= 1 block, none is trivial).
+    `mode` None: the grammar (A, Q, B, C) of every document is drawn from `rng`; a given mode: all documents of it."""
+    docs, tags = [], []
+    for _ in range(n):
+        m = mode or rng.choice(MODES)
+        docs.append(G(rng, m).doc()); tags.append(m)
+    return check_docs(driver, rng, docs, spellings, tags, full)
 
 
 if __name__ == '__main__' and sys.argv[1] == 'lean':
@@ -308,13 +352,13 @@ if __name__ == '__main__' and sys.argv[1] == 'lean':
 
 if __name__ == '__main__':
     import json
-    mode = sys.argv[1]
+    mode = None if sys.argv[1] == 'all' else sys.argv[1]
     n = int(sys.argv[2]) if len(sys.argv) > 2 else 2000
     seed = int(sys.argv[3]) if len(sys.argv) > 3 else 1
     d = Driver()
-    res = run(d, random.Random(seed), n, mode)
+    res = run(d, random.Random(seed), n, mode, full=True)
     d.close()
-    print(json.dumps({k: v for k, v in res.items() if k not in ('dis', 'rejected')}, indent=1))
+    print(json.dumps({k: v for k, v in res.items() if k not in ('dis', 'rejected', 'disagreements', 'samples')}, indent=1))
     for x in res['rejected'][:3]: print('REJECTED', x)
     for x in res['dis'][:int(os.environ.get('SHOW', '6'))]:
         print('SRC ', repr(x['src'])); print('WANT', repr(x['want'])); print('GOT ', repr(x['got'])); print('DOC ', x['doc']); print()
